@@ -159,6 +159,7 @@ func (a *scriptActor) OnPrelaunch(ctx vivid.PrelaunchContext) error {
 		if a.has(a.x.sc.Cfg.SpawnPrelaunchFail) {
 			// by returning an error only: a panic in OnPrelaunch at spawn time is not recovered by the library and
 			// surfaces in the caller of ActorOf (the statement speaks of failure, i.e. the error return)
+			a.x.ev(map[string]any{"e": "Hook", "a": a.name, "k": "prelaunch-spawn", "v": 0})
 			return errors.New("prelaunch failed at spawn")
 		}
 		return nil
